@@ -221,6 +221,34 @@ def check_simulated(ctx, chi, models, reg, kind, direct, rng):
         else:
             ctx.spec(tag, err <= TOL, dict(inp, times=times, ke=ke, V=V, ka=ka), {'chi': res, 'oracle': ov,
                                                                                     'rel_err': err})
+    # the regimen must survive every way of (re-)building the solver: sensitivities switched on,
+    # re-selected while on (as ReducedMechanisticModel.fix_parameters does), switched off again
+    names = model.parameters()
+    steps = [('enable', lambda: model.enable_sensitivities(True)),
+             ('re-enable with selection', lambda: model.enable_sensitivities(True, names[-1:])),
+             ('re-enable all', lambda: model.enable_sensitivities(True)),
+             ('disable', lambda: model.enable_sensitivities(False))]
+    vals = {'central.drug_amount': 0.0, 'dose.drug_amount': 0.0, 'central.size': V,
+            'dose.absorption_rate': ka, 'global.elimination_rate': 0.0}
+    want = [cf.delivered(sched, t) for t in times]
+    done = []
+    for name, step in steps:
+        done.append(name)
+        try:
+            step()
+            refsim.clear_record()
+            out = model.simulate(lib_vector(model, vals), times)
+            res = np.asarray(out[0] if isinstance(out, tuple) else out)
+            run = [r for r in refsim.RECORD if r[1] == 'run'][-1][2]
+            ok = run['protocol'] == model.dosing_regimen().code() and \
+                core.close(list(res.sum(axis=0)), want, TOL, 1e-9)
+            ctx.spec('C10.protocol_attached/after_sensitivity_switching', ok, dict(inp, steps=list(done)),
+                     {'protocol at run': run['protocol'], 'reported': model.dosing_regimen().code(),
+                      'cumulative input': res.sum(axis=0), 'scheduled': want})
+        except Exception as e:  # noqa
+            ctx.spec('C10.protocol_attached/after_sensitivity_switching', False, dict(inp, steps=list(done)),
+                     {'raised': repr(e)[:200]})
+    model.enable_sensitivities(False)
 
 
 def check_generated_dosing(ctx, chi, i, rng):
